@@ -57,6 +57,18 @@ DeclsOfNode(U, g, root, n) ==     \* eligible declarations of node n, with posit
 AllDecls(U, g, root) == UNION {DeclsOfNode(U, g, root, n) : n \in 1..Len(g.nodes)}
 Before(x, y) == x.n < y.n \/ (x.n = y.n /\ x.i < y.i)
 
+RangeAnywhere(U, key) == \E p \in El(U) : \E ev \in El(p.versions) : \E d \in El(ev.deps) : KeyOfDep(d) = key /\ ~IsSoft(d.r)
+AnyRange(U) == \E p \in El(U) : \E ev \in El(p.versions) : \E d \in El(ev.deps) : ~IsSoft(d.r)
+SoftDeclares(ev, key, v) == \E d \in El(ev.deps) : ~d.mgmt /\ KeyOfDep(d) = key /\ IsSoft(d.r) /\ MVRq[d.r].v = v
+StaleReplaced(U, g, decls, key, v) == \E nq \in 2..Len(g.nodes) : HasArt(U, g.nodes[nq].name) /\
+     \E ev \in El(ArtOf(U, g.nodes[nq].name).versions) : ev.v # g.nodes[nq].v /\ SoftDeclares(ev, key, v)
+        \* the range that excludes the replaced version is met after that version was expanded - or is not visible in the graph any more
+        /\ LET rs == {y \in decls : ~IsSoft(y.r) /\ y.d.name = g.nodes[nq].name /\ ~MSat[y.r][ev.v]} IN (\E y \in rs : nq < y.n) \/ (rs = {} /\ AnyRange(U))
+StaleOrder(U, decls, key, v) == (\E y \in decls : KeyOfDep(y.d) = key /\ IsSoft(y.r) /\ MVRq[y.r].v = v) /\ AnyRange(U)
+\* the declaring package is absent from the graph, or one of its flavours (type / classifier) that the universe declares is
+FlavourAbsent(U, g, name) == \E q \in El(U) : \E ev \in El(q.versions) : \E d \in El(ev.deps) : d.name = name /\ ~\E e \in El(g.edges) : KeyOfEdge(g, e) = KeyOfDep(d)
+StaleAbandoned(U, g, key, v) == \E p \in El(U) : ((~\E k \in 1..Len(g.nodes) : g.nodes[k].name = p.name) \/ FlavourAbsent(U, g, p.name))
+                                                   /\ \E ev \in El(p.versions) : (~\E k \in 1..Len(g.nodes) : g.nodes[k].name = p.name /\ g.nodes[k].v = ev.v) /\ SoftDeclares(ev, key, v)
 \* softOnly: the universe contains no range requirement at all.  Nearest-wins is judged only then: with ranges
 \* the resolver restarts and keeps the requirements it met in abandoned attempts, which the final graph does
 \* not show (a soft 1.0 at the root may correctly yield 3.0 because an abandoned branch demanded (2.0,3.0]).
@@ -79,8 +91,21 @@ MavenViolations(U, root, g, softOnly) ==
           ~(\E e \in El(g.edges) : e.f = x.n /\ KeyOfEdge(g, e) = KeyOfDep(x.d) /\ e.r = x.r)
           /\ ~(\E er \in El(g.nodes[x.n].errs) : er.name = x.d.name)}}
   \cup {<<"unreachable-node", n>> : n \in {n \in 2..Len(g.nodes) : ~\E e \in El(g.edges) : e.t = n /\ e.f < n}}
-  \cup (IF ~softOnly \/ \E x \in decls : ~IsSoft(x.r) THEN {}        \* nearest wins
-        ELSE {<<"nearest-declaration-does-not-win", x.n>> : x \in {x \in decls :
-                 (\A y \in decls : KeyOfDep(y.d) = KeyOfDep(x.d) => (y = x \/ Before(x, y)))
-                 /\ \E e \in El(g.edges) : KeyOfEdge(g, e) = KeyOfDep(x.d) /\ g.nodes[e.t].v # MVRq[x.r].v}})
+  \* nearest wins, judged per artifact key that no declaration anywhere in the universe (dependencyManagement included)
+  \* constrains with a range: its requirement list then holds soft versions only and the first one met decides.
+  \* Two modelled deviations (recorded finding C07-F25): the resolver restarts after meeting a range that excludes a
+  \* version chosen softly, and keeps the requirements it recorded in the abandoned attempt; a soft requirement declared
+  \* only by the replaced version then still comes first.  (a) the declaring package is in the graph at another version
+  \* and was expanded before some range declaration was met (its node precedes the declarer's); (b) the declaring
+  \* package is not in the graph at all (it hung below a replaced version); (c) the version is the one a farther
+  \* declaration of the final graph demands and the universe contains a range (a restart can have happened: that
+  \* declaration was met first in the abandoned attempt, when the nearer declarer was not there yet; the range that
+  \* caused the restart need not be visible in the final graph).
+  \cup UNION {LET sel == {g.nodes[e.t].v : e \in {e \in El(g.edges) : KeyOfEdge(g, e) = KeyOfDep(x.d)}} IN
+             {<<IF StaleReplaced(U, g, decls, KeyOfDep(x.d), v) THEN "stale-soft-requirement-of-a-version-replaced-after-it-was-expanded"
+                ELSE IF StaleAbandoned(U, g, KeyOfDep(x.d), v) THEN "stale-soft-requirement-of-an-abandoned-branch"
+                ELSE IF StaleOrder(U, decls, KeyOfDep(x.d), v) THEN "stale-order-a-farther-declaration-met-first-in-an-abandoned-attempt-wins"
+                ELSE "nearest-declaration-does-not-win", x.n>> : v \in {v \in sel : v # MVRq[x.r].v}} :
+          x \in {x \in decls : ~RangeAnywhere(U, KeyOfDep(x.d)) /\ IsSoft(x.r)
+                                /\ \A y \in decls : KeyOfDep(y.d) = KeyOfDep(x.d) => (y = x \/ Before(x, y))}}
 =============================================================================
